@@ -29,6 +29,7 @@ plugged in at the marked place in `main()`.
 import math
 import os
 import sys
+import time
 from concurrent.futures import ThreadPoolExecutor
 
 sys.path.insert(0, os.path.dirname(os.path.dirname(os.path.abspath(__file__))))
@@ -322,6 +323,7 @@ def stub_family(ck, np, Reweighter, StateManager, cov):
             states = fastdump.iter_dump(res.dump_path, keep='/\\ pc = "done"')
         n = 0
         seen = set()
+        t_replay = time.time()
         for st in states:
             if st["pc"] != "done":
                 continue
@@ -363,6 +365,7 @@ def stub_family(ck, np, Reweighter, StateManager, cov):
                            "queried": [g / 2 ** F for g in st["qlog"]], "ess_oracle": st["essM"], "vv_oracle": st["vvM"],
                            "limit": st["upper"] / 2 ** F, "result": st["res"] / 2 ** F})
         info["behaviours_replayed"] = n
+        info["replay_wall_s"] = round(time.time() - t_replay, 1)
         per_model[m["name"]] = info
         cov["traces_validated_against_impl"] += n
         res.cleanup()
